@@ -96,18 +96,25 @@ def h_jacobian_dirs(ctx, pname, D, P):
         ctx.eq(J[:, p], Jp[:, 0], 'jacobian(curve) dir %d' % p)
 
 
-def h_floordiv_mixed(ctx, D):
-    """x // y with one direction needing the 0/0 treatment and one regular direction"""
+def h_floordiv_mixed(ctx, D, order=1, regular_first=False):
+    """x // y with one direction needing the 0/0 treatment (a common zero of the given order at
+    t = 0) and one regular direction"""
     from .common import mk_utpm, plain
     algopy = symx.load_algopy()
     P = 2
     X = O.make_input(ctx, O.Arg('utpm', ()), 'x', D, P)
     Y = O.make_input(ctx, O.Arg('utpm', ()), 'y', D, P)
     zero = S.const(0) if ctx.mode == 'sym' else 0.0
-    X[0, 0] = zero
-    Y[0, 0] = zero
-    ctx.assume(Y[1, 0] * Y[1, 0] > 1)
-    ctx.assume(Y[0, 1] * Y[0, 1] > 1)
+    pz, pr = (1, 0) if regular_first else (0, 1)
+    for k in range(order):
+        X[k, pz] = zero
+        Y[k, pz] = zero
+    # leading coefficients 2 + v with v > -1 (well above the 1e-8 threshold; every default float
+    # point of the numeric fallback satisfies it)
+    for (d_, p_) in ((order, pz), (0, pr)):
+        v = Y[d_, p_]
+        ctx.assume(v > -1)
+        Y[d_, p_] = v + 2
     z = plain((mk_utpm(ctx, algopy, X) // mk_utpm(ctx, algopy, Y)).data)
     for p in range(P):
         zp = plain((mk_utpm(ctx, algopy, X[:, p:p + 1]) // mk_utpm(ctx, algopy, Y[:, p:p + 1])).data)
@@ -221,6 +228,47 @@ def h_qr_mixed_rank(ctx, D, shape=(2, 2)):
                 ctx.eq(sum(np.dot(Qd[c, 0], Rd[d - c, 0]) for c in range(d + 1)), X[d, 0], 'regular direction: Q R == A order %d' % d)
 
 
+def h_qr_mixed_rank_reverse(ctx, D, shape=(2, 2)):
+    """reverse sweep of qr with two directions of different numerical rank: the adjoint of each
+    direction equals the adjoint computed for that direction alone"""
+    from . import c08
+    from .. import stubs
+    from .common import mk_utpm, plain
+    algopy = symx.load_algopy()
+    M, N = shape
+    K = min(M, N)
+    zero = S.const(0) if ctx.mode == 'sym' else 0.0
+    A0s = []
+    for p in range(2):
+        Q0 = c08.rot2(ctx, 'q%d' % p) if M == 2 else c08.rot3(ctx, 'q%d' % p)[:, :K]
+        R0 = c08.upper(ctx, 'R%d' % p, K, N)
+        if p == 1:
+            R0[K - 1, K - 1] = zero
+        A0 = np.dot(Q0, R0)
+        if ctx.mode == 'sym':
+            stubs.register('qr', A0, (Q0, R0))
+        A0s.append(A0)
+    X = c08.build_input(ctx, A0s, D, (M, N))
+    QB = np.empty((D, 2, M, K), dtype=object)
+    RB = np.empty((D, 2, K, N), dtype=object)
+    for idx in np.ndindex(*QB.shape):
+        QB[idx] = ctx.var('qb%s' % list(idx))
+    for idx in np.ndindex(*RB.shape):
+        RB[idx] = ctx.var('rb%s' % list(idx))
+
+    def sweep(sl):
+        A = mk_utpm(ctx, algopy, X[:, sl])
+        Q, R = algopy.UTPM.qr(A)
+        return plain(algopy.UTPM.pb_qr(mk_utpm(ctx, algopy, QB[:, sl]), mk_utpm(ctx, algopy, RB[:, sl]), A, Q, R).data)
+    try:
+        both = sweep(slice(0, 2))
+    except Exception as e:
+        ctx.fact(False, 'reverse sweep of qr with P=2 raised %s: %s' % (type(e).__name__, str(e)[:80]))
+        return
+    one = sweep(slice(0, 1))
+    ctx.eq(both[:, 0], one[:, 0], 'adjoint of the regular direction: P=2 sweep == single-direction sweep')
+
+
 def npx_sarr(ctx, C):
     from .. import npx
     if ctx.mode == 'sym':
@@ -244,6 +292,10 @@ def units(tier, seed):
         out.append(Unit('C11/jacobian(Taylor argument)/%s/D2,P2' % pn, 'symx.props.c11', 'h_jacobian_dirs', {'pname': pn, 'D': 2, 'P': 2},
                         {'property': PROP}))
     out.append(Unit('C11/qr, rank-deficient base point in one direction only/D3', 'symx.props.c11', 'h_qr_mixed_rank', {'D': 3}, {'property': PROP, 'path_budget': 100}))
+    out.append(Unit('C11/reverse/qr, rank-deficient base point in one direction only/D2', 'symx.props.c11', 'h_qr_mixed_rank_reverse', {'D': 2}, {'property': PROP, 'path_budget': 100, 'validate_values': False}))
+    out.append(Unit('C11/reverse/qr 3x2, rank-deficient base point in one direction only/D2', 'symx.props.c11', 'h_qr_mixed_rank_reverse', {'D': 2, 'shape': (3, 2)}, {'property': PROP, 'path_budget': 100, 'validate_values': False}))
+    out.append(Unit('C11/floordiv, double common zero in the second direction only/D5', 'symx.props.c11', 'h_floordiv_mixed', {'D': 5, 'order': 2, 'regular_first': True}, {'property': PROP}))
+    out.append(Unit('C11/floordiv, double common zero in the first direction only/D4', 'symx.props.c11', 'h_floordiv_mixed', {'D': 4, 'order': 2}, {'property': PROP}))
     out.append(Unit('C11/floordiv, 0/0 in one direction only/D3', 'symx.props.c11', 'h_floordiv_mixed', {'D': 3}, {'property': PROP}))
     out.append(Unit('C11/reverse/eigh, repeated eigenvalue in one direction only/D2', 'symx.props.c11', 'h_reverse_eigh_mixed', {'D': 2},
                     {'property': PROP, 'float_tol': 1e-6}))
